@@ -112,6 +112,17 @@ class STIXdatetime(dt.datetime):
     def __repr__(self):
         return "'%s'" % format_datetime(self)
 
+    def __copy__(self):
+        # datetime's default copy support would rebuild the value without
+        # the format metadata
+        return STIXdatetime(
+            self, precision=self.precision,
+            precision_constraint=self.precision_constraint,
+        )
+
+    def __deepcopy__(self, memo):
+        return self.__copy__()
+
 
 def deduplicate(stix_obj_list):
     """Deduplicate a list of STIX objects to a unique set.
